@@ -935,7 +935,7 @@ fn extract() -> String {
     let schemas = all_schemas();
     let mut out = String::new();
     out.push_str("-- GENERATED by `h-c18 c18 extract` from the running implementation. Do not edit.\n");
-    out.push_str("import RumaModel.Spec.EventTypes\nnamespace Ruma.Generated.C18\nopen Ruma.EventDispatch Ruma.Spec.EventTypes\n\n");
+    out.push_str("import RumaModel.Spec.EventTypes\nimport RumaModel.Model.ContentSchemaLeaves\nnamespace Ruma.Generated.C18\nopen Ruma.EventDispatch Ruma.Spec.EventTypes\n\n");
     out.push_str("/-- (enum, type, withStateKey, redactedForm, what the real `Deserialize` selected); strings as UTF-8 bytes. -/\n");
     let keys = cell_keys(&schemas);
     let mut not_covered = Vec::new();
@@ -977,6 +977,23 @@ fn extract() -> String {
     out.push_str("def schemaFacts : List (String × String) := [\n");
     out.push_str(&ex.modelled.iter().map(|t| format!("  ({:?}, {:?})", format!("{}:{}", t.kind, t.ty), t.toks)).collect::<Vec<_>>().join(",\n"));
     out.push_str("\n]\n\n");
+    // the same schemas as closed Lean terms: `Props/C18.lean` proves `WF` of every one of them
+    // (`generated_schemas_wf`) and the driver answers `c18.schema` requests from THESE terms, after
+    // checking that the tokens carried by the request print the same schema
+    out.push_str("section\nopen Ruma.ContentSchema\n\n");
+    for (n, t) in ex.modelled.iter().enumerate() {
+        out.push_str(&format!("/-- `{}:{}` -/\ndef desc{n} : Desc :=\n  {}\n\n", t.kind, t.ty, t.m.lean()));
+    }
+    out.push_str("/-- `kind:type` (UTF-8 bytes) and the description of the content type's schema. -/\ndef descs : List (Ruma.Str × Desc) := [\n");
+    out.push_str(
+        &ex.modelled
+            .iter()
+            .enumerate()
+            .map(|(n, t)| format!("  ({}, desc{n})", model::lean_bytes(&format!("{}:{}", t.kind, t.ty))))
+            .collect::<Vec<_>>()
+            .join(",\n"),
+    );
+    out.push_str("\n]\n\n/-- The modelled schemas: the meaning of each description. -/\ndef schemas : List (Ruma.Str × Schema) := descs.map (fun p => (p.1, p.2.toSchema))\n\nend\n\n");
     out.push_str(&format!("def schemaModelled : Nat := {}\ndef schemaT3Only : Nat := {}\n", ex.modelled.len(), ex.t3_only.len()));
     for (k, t, why) in &ex.t3_only {
         out.push_str(&format!("-- T3-only: {k}:{t}: {why}\n"));
